@@ -218,6 +218,65 @@ def sibling_opacities(model, res):
     res.extra['opacity_definition_sites'] = sites
 
 
+RADSHOCK_CTORS = {
+    # constructor -> (argument dimensions, literal constants with the units their comments state,
+    #                 derived attributes with the dimension their doc comment states)
+    'exactpack.solvers.radshocks.radshock:RadShock.__init__': (
+        {'M0': {}, 'rho0': {'M': 1, 'L': -3}, 'Tref': {'E': 1}, 'Cv': {'L': 2, 'T': -2, 'E': -1}, 'gamma': {}},
+        {'self.c': {'L': 1, 'T': -1}, 'self.ar': {'M': 1, 'L': -1, 'T': -2, 'E': -4}},
+        {'sound': {'L': 1, 'T': -1}, 'C0': {}, 'P0': {}}),
+    'exactpack.solvers.radshocks.radshock:IEShock.__init__': (
+        {'M0': {}, 'rho0': {'M': 1, 'L': -3}, 'Tref': {'E': 1}, 'Cv': {'L': 2, 'T': -2, 'E': -1}, 'gamma': {}, 'Z': {}},
+        {},
+        {'sound': {'L': 1, 'T': -1}, 'Mc': {}}),
+}
+
+
+def scaling_groups(model, res):
+    """R12.4: the reference speed and the dimensionless groups every radiative-shock solver is
+    parameterised by (sound = sqrt(gamma(gamma-1) Cv Tref), C0 = c/sound "ratio of the speed of
+    light to the sound speed", P0 = a_r Tref^4/(rho0 sound^2) "radiation pressure over an ideal
+    kinetic energy") have the dimension their doc comments state, with c and a_r carrying the
+    units written next to the literals (cm/s, erg/cm^3/eV^4).  The profiles are computed for
+    (M0, C0, P0) and re-dimensionalised with rho0, sound, Tref: a group that is not dimensionless
+    makes the returned physical profile conserve fluxes of a different problem."""
+    from ..dimcheck import analyse_function, findings_from
+    from ..dim import Lin
+    units = ('M', 'L', 'T', 'E')
+    for fname, (argd, consts, outs) in RADSHOCK_CTORS.items():
+        fi = model.get_func(fname)
+        cls = fi.cls
+        names = [a.arg for a in fi.node.args.args]
+        spec = {nm: argd.get(nm) for nm in names if nm != 'self'}
+        missing = set(argd) - set(names)
+        if missing:
+            raise AnalysisError('%s no longer takes %s' % (fname, sorted(missing)))
+        b, S, ev, ret = analyse_function(model, fname, spec, units=units, seeds={fname: consts} if consts else None,
+                                         self_cls=cls, self_params=[])
+        if consts and getattr(ev, 'seeded', 0) < len(consts):
+            raise AnalysisError('physical constants %s not found in %s' % (sorted(consts), fname))
+        objs = [o for o in b.objs.values() if o.cls is cls]
+        if not objs:
+            raise AnalysisError('no instance state for %s' % fname)
+        heap = b.heap[objs[0].oid]
+        for attr, want in outs.items():
+            if attr not in heap:
+                raise AnalysisError('%s no longer sets self.%s' % (fname, attr))
+            d = ev.dim(heap[attr])
+            if not isinstance(d, Lin):
+                raise AnalysisError('dimension of self.%s in %s did not resolve' % (attr, fname))
+            S.unify(d, S.from_spec(want), heap[attr], "'%s.%s' vs its documented dimension" % (cls.name, attr), priority=0)
+        before = len(res.findings)
+        findings_from(S, ev, PROP, 'C12.scaling-group', res)
+        res.obligations += S.constraints
+        res.evaluations += S.constraints
+        res.nontrivial += S.nontrivial + S.checked
+        res.discharged += S.constraints - len(S.inconsistencies)
+        res.analysed.append(fname)
+        res.sample({'rule': 'C12.scaling-group', 'constructor': fname,
+                    'groups': {a: S.show(ev.dim(heap[a])) for a in outs}})
+
+
 def run(model, tier):
     res = Result(PROP)
     res.explanation = (
@@ -230,11 +289,14 @@ def run(model, tier):
         'nothing else changes with time. Flux constancy along the profile and the downstream equilibrium are '
         'numerics inside utils.py and are not decided, except for one structural necessary condition, R12.3: the 44 '
         'copies of the absorption / scattering cross-section formula in the profile helper functions all use exactly the '
-        'parameters of their own process and have one common form (sibling agreement).')
+        'parameters of their own process and have one common form (sibling agreement); and R12.4: the reference sound speed and the dimensionless groups C0, P0 (Mc) '
+        'computed by the RadShock / IEShock constructors have the dimensions their doc comments state (dimension inference with c, a_r '
+        'carrying the units written next to the literals).')
     res.rule_text = 'instance = one derived class attribute / one returned field'
     res.trusted_base = ['CPython ast', 'NF engine', 'numpy.interp semantics']
     n = stale_class_attrs(model, res)
     res.extra['derived_class_attributes'] = n
     travelling(model, res)
     sibling_opacities(model, res)
+    scaling_groups(model, res)
     return res
